@@ -388,7 +388,12 @@ class C10(PropCheck):
 
         w = World(case)
         st = stackscope.extract(w.obj(case["x"]), with_contexts=case.get("wc", False))
-        return w.show_stack(st)
+        out = w.show_stack(st)
+        # a second extraction of the same (unchanged) world gives the same answer: nothing the hooks own was altered by the first
+        st2 = stackscope.extract(w.obj(case["x"]), with_contexts=case.get("wc", False))
+        out2 = w.show_stack(st2)
+        self._again = None if out2 == out else out2
+        return out
 
     def canon(self, case, real):
         return real
@@ -401,6 +406,9 @@ class C10(PropCheck):
     def oracle(self, case, real) -> Optional[str]:
         if not isinstance(real, str) or not real.startswith("frames="):
             return f"extract did not return a Stack: {real!r}"[:300]
+        again = self._agains.get(id(case)) if hasattr(self, "_agains") else None
+        if again is not None:
+            return f"a second extraction of the unchanged item tree differs from the first: {again} vs {real}"
         try:
             want_f, want_l = reference(case)
         except SpecDiverges:
@@ -503,4 +511,17 @@ def has_branching_cycle(case) -> bool:
     return False
 
 
+_orig10 = C10.run_real
+
+
+def _run10(self, case):
+    if not hasattr(self, "_agains"):
+        self._agains = {}
+    self._again = None
+    r = _orig10(self, case)
+    self._agains[id(case)] = self._again
+    return r
+
+
+C10.run_real = _run10  # type: ignore[assignment]
 CHECK = C10()
